@@ -292,7 +292,7 @@ pub enum Mark {
     /// a plain scalar inside a flow collection; `parent` = indentation of the enclosing block construct
     FlowPlain { start: usize, end: usize, parent: isize },
     /// a quoted scalar (with its quotes) inside a flow collection
-    FlowQuoted { start: usize, end: usize, parent: isize },
+    FlowQuoted { start: usize, end: usize, parent: isize, seq_pair_key: bool },
 }
 
 pub struct R<'a> {
@@ -311,11 +311,13 @@ pub struct R<'a> {
     flow_parent: Vec<isize>,
     /// the default form of a block mapping entry is the explicit one (`? k` / `: v`) instead of `k: v`
     pub explicit_baseline: bool,
+    /// the node being written is the implicit key of a brace-less pair inside a flow sequence
+    in_seq_pair_key: bool,
 }
 
 impl<'a> R<'a> {
     pub fn new(ch: &'a mut Ch) -> Self {
-        R { out: String::new(), ch, oneline: 0, marks: vec![], in_block_key: false, first_lines: vec![], lines: vec![], levels: vec![], open: vec![], flow_parent: vec![], explicit_baseline: false }
+        R { out: String::new(), ch, oneline: 0, marks: vec![], in_block_key: false, first_lines: vec![], lines: vec![], levels: vec![], open: vec![], flow_parent: vec![], explicit_baseline: false, in_seq_pair_key: false }
     }
     fn col(&self) -> usize {
         self.out.rsplit('\n').next().unwrap().chars().count()
@@ -428,7 +430,7 @@ impl<'a> R<'a> {
                     self.marks.push(Mark::FlowPlain { start: from, end: self.out.len(), parent: n });
                 }
                 if (*st == 1 || *st == 2) && !self.flow_parent.is_empty() {
-                    self.marks.push(Mark::FlowQuoted { start: from, end: self.out.len(), parent: n });
+                    self.marks.push(Mark::FlowQuoted { start: from, end: self.out.len(), parent: n, seq_pair_key: self.in_seq_pair_key });
                 }
             }
             N::Alias(i) => self.out.push_str(&format!("*a{i}")),
@@ -520,7 +522,9 @@ impl<'a> R<'a> {
         if !explicit || in_seq {
             self.oneline += 1;
         }
+        self.in_seq_pair_key = in_seq && !explicit;
         self.flow(x, n);
+        self.in_seq_pair_key = false;
         if !explicit || in_seq {
             self.oneline -= 1;
         }
